@@ -305,7 +305,7 @@ def ctor_cases():
     add("construct_frames(first exon shorter than offset)", lambda: CDSInterval.construct_frames_from_location(CompoundInterval([0, 3], [1, 9], P), T))
     # GeneInterval / FeatureIntervalCollection
     tx = lambda **kw: TranscriptInterval([0, 7], [5, 14], P, parent_or_seq_chunk_parent=chrom(), **kw)
-    add("Gene([])", lambda: GeneInterval([]))
+    add("Gene([])", lambda: GeneInterval([]), must_refuse="InvalidAnnotationError")
     add("Gene(duplicate transcripts)", lambda: GeneInterval([tx(), tx()]))
     add("Gene(two primary)", lambda: GeneInterval([tx(is_primary_tx=True), tx(is_primary_tx=True, transcript_id="b")]))
     add("Gene(gene_type=None).get_merged_transcript", lambda: GeneInterval([tx()], parent_or_seq_chunk_parent=chrom()).get_merged_transcript())
@@ -314,7 +314,7 @@ def ctor_cases():
     add("Gene(no sequence name).to_gff", lambda: list(GeneInterval([tx()]).to_gff()))
     add("Gene(noncoding).get_primary_protein", lambda: GeneInterval([tx()]).get_primary_protein())
     ft = lambda **kw: FeatureInterval([0, 7], [5, 14], P, parent_or_seq_chunk_parent=chrom(), **kw)
-    add("FeatureCollection([])", lambda: FeatureIntervalCollection([]))
+    add("FeatureCollection([])", lambda: FeatureIntervalCollection([]), must_refuse="InvalidAnnotationError")
     add("FeatureCollection(duplicates)", lambda: FeatureIntervalCollection([ft(), ft()]))
     add("FeatureCollection(two primary)", lambda: FeatureIntervalCollection([ft(is_primary_feature=True), ft(is_primary_feature=True, feature_name="b")]))
     add("FeatureCollection.get_merged_feature(mixed strands)", lambda: FeatureIntervalCollection([ft(), FeatureInterval([1], [4], Mi, parent_or_seq_chunk_parent=chrom())], parent_or_seq_chunk_parent=chrom()).get_merged_feature())
@@ -332,7 +332,8 @@ def ctor_cases():
         add(f"VariantCollection(overlapping pair, order {pm})", lambda pm=pm: VariantIntervalCollection([VariantInterval(tri[i][0], tri[i][1], tri[i][2], "del") for i in pm]), must_refuse=True)
         add(f"VariantCollection(overlapping pair, order {pm}, chromosome)", lambda pm=pm: VariantIntervalCollection(
             [VariantInterval(tri[i][0], tri[i][1], tri[i][2], "del", parent_or_seq_chunk_parent=chrom()) for i in pm], parent_or_seq_chunk_parent=chrom()), must_refuse=True)
-    add("VariantCollection([])", lambda: VariantIntervalCollection([]))
+    # ("Raised when Collection objects have invalid arguments": the empty child list of all three collection classes)
+    add("VariantCollection([])", lambda: VariantIntervalCollection([]), must_refuse="InvalidAnnotationError")
     add("Variant(no sequence).alternative_genomic_sequence", lambda: VariantInterval(2, 3, "A", "SNV").alternative_genomic_sequence)
     # AnnotationCollection
     gene = lambda: GeneInterval([tx()], gene_type=Biotype["ncRNA"], parent_or_seq_chunk_parent=chrom())
@@ -534,6 +535,9 @@ def run_ctor(res, shard_i):
             res.note("ctor", cl + ":" + o[1])
             if cl == "internal":
                 res.deviation(name, case, o[1], "documented exception or well-formed object", sig=f"ctor-internal:{name.split('(')[0]}:{o[1]}")
+            elif isinstance(must_refuse, str) and must_refuse not in [c.__name__ for c in type(o[2]).__mro__]:
+                # the documented refusal of this input class names its exception type (an incidental builtin error is not it)
+                res.deviation(name, case, o[1] + ": " + str(o[2])[:80], must_refuse, sig=f"ctor-wrong-refusal:{name.split('(')[0]}")
         else:
             v = o[1]
             if isinstance(v, (types.GeneratorType,)):
